@@ -9,6 +9,8 @@ import (
 	"math/rand/v2"
 	"sort"
 	"strings"
+	"sync"
+	"sync/atomic"
 	"testing"
 	"testing/synctest"
 	"time"
@@ -95,6 +97,20 @@ func TestC08(t *testing.T) {
 		}
 		synctest.Test(t, func(t *testing.T) { c08FirstDeploys(t, run, k, run.Rand(n+5000+k)) })
 	}
+	for k := 0; k < run.N(16, 320); k++ {
+		desc := map[string]any{"idx": k, "kind": "gate-level-stop-pause-alternation"}
+		if !run.Mine(n+11000+k, desc) {
+			continue
+		}
+		c08GateHammer(run, k, run.Rand(n+11000+k))
+	}
+	for k := 0; k < run.N(16, 320); k++ {
+		desc := map[string]any{"idx": k, "kind": "stop-pause-alternation-under-load"}
+		if !run.Mine(n+9000+k, desc) {
+			continue
+		}
+		synctest.Test(t, func(t *testing.T) { c08Hammer(t, run, k, run.Rand(n+9000+k)) })
+	}
 	for k := 0; k < run.N(8, 96); k++ {
 		desc := map[string]any{"idx": k, "kind": "upload-in-progress-when-stopped", "side": []string{"rollout", "active"}[k%2], "rollout_stop_first": k%4 < 2, "cmd": []string{"stop", "pause"}[(k/4)%2]}
 		if !run.Mine(n+7000+k, desc) {
@@ -102,6 +118,190 @@ func TestC08(t *testing.T) {
 		}
 		synctest.Test(t, func(t *testing.T) { c08Upload(t, run, k, desc) })
 	}
+}
+
+// c08GateHammer: the same alternation as c08Hammer, one level down and in real time: the gate of a
+// service (the real PauseController, through its exported API only) is stopped, then `pause` and
+// `stop <message i>` alternate in a tight loop while goroutines call Wait() the way requests do.
+// The window in question is a few instructions wide and is met only under sustained contention on
+// the controller's lock, which whole HTTP requests cannot produce. Oracle: a Wait that reports
+// "stopped" hands out one of the messages issued so far (each is recorded before its stop is
+// issued), and none reports "proceed" before the final resume has been issued (flag set before).
+// A max-pause expiry cannot legitimately occur (one minute, the run takes milliseconds); one that
+// is seen is counted, not judged.
+func c08GateHammer(run *Run, idx int, rng *rand.Rand) {
+	run.Eval()
+	p := server.NewPauseController()
+	var issued sync.Map
+	msg := func(i int) string {
+		m := fmt.Sprintf("gate %d-%d", idx, i)
+		issued.Store(m, true)
+		return m
+	}
+	p.Stop(msg(0))
+	rounds := 2000 + rng.IntN(4000)
+	waiters := 2 + rng.IntN(10)
+	var resumed, done atomic.Bool
+	var bad atomic.Pointer[string]
+	var stopped, timedOut atomic.Int64
+	var wg sync.WaitGroup
+	for i := 0; i < waiters; i++ {
+		wg.Add(1)
+		go func() {
+			defer wg.Done()
+			for !done.Load() {
+				wasResumed := resumed.Load()
+				act, m := p.Wait()
+				switch act {
+				case server.PauseWaitActionStopped:
+					stopped.Add(1)
+					if _, ok := issued.Load(m); !ok {
+						s := fmt.Sprintf("Wait() reported stopped with message %q, which no stop command has carried", m)
+						bad.CompareAndSwap(nil, &s)
+					}
+				case server.PauseWaitActionProceed:
+					if !wasResumed && !resumed.Load() {
+						s := "Wait() reported proceed although no resume had been issued"
+						bad.CompareAndSwap(nil, &s)
+					}
+				default:
+					timedOut.Add(1)
+				}
+			}
+		}()
+	}
+	var cmdErr error
+	for i := 1; i <= rounds && bad.Load() == nil && cmdErr == nil; i++ {
+		if cmdErr = p.Pause(time.Minute); cmdErr == nil {
+			cmdErr = p.Stop(msg(i))
+		}
+	}
+	resumed.Store(true)
+	if err := p.Resume(); err != nil && cmdErr == nil {
+		cmdErr = err
+	}
+	done.Store(true)
+	wg.Wait()
+	desc := map[string]any{"idx": idx, "rounds": rounds, "waiters": waiters}
+	if cmdErr != nil {
+		run.Violate("gate-command-failed", "pause/stop/resume on the gate failed: "+cmdErr.Error(), desc, nil)
+		return
+	}
+	if s := bad.Load(); s != nil {
+		sig := "gate:stopped-without-issued-message"
+		if strings.Contains(*s, "proceed") {
+			sig = "gate:proceed-while-never-resumed"
+		}
+		run.Violate(sig, fmt.Sprintf("gate stopped, then pause and stop <message i> alternated %d times against %d goroutines calling Wait(): %s", rounds, waiters, *s), desc, nil)
+		return
+	}
+	run.Count("gate_waits_reporting_stopped", int(stopped.Load()))
+	run.Count("gate_waits_timed_out_not_judged", int(timedOut.Load()))
+	if stopped.Load() == 0 {
+		return
+	}
+	run.Class(fmt.Sprintf("gate-hammer|waiters%d", waiters/3*3))
+}
+
+// c08Hammer: the service is stopped; the operator then alternates `pause` and `stop <message i>` without a break (each command
+// is issued when the one before has returned; all of it at one virtual instant, so the commands and
+// the requests race in real time on all cores) while clients send requests back to back. The service
+// is never running between the first stop (returned before the first request) and the final resume, so no request can be forwarded in
+// between, and every 503 comes from the stop gate: a request that finds the service stopped, or one
+// that the pause held and the next stop released. Each such 503 must be the well-formed page with one
+// of the messages the operator has issued - never an empty or foreign message (the state and the
+// message belong together; reading them apart lets the next command's message, or none, slip in).
+// Requests still held at the end are forwarded by the final resume a virtual second later.
+func c08Hammer(t *testing.T, run *Run, idx int, rng *rand.Rand) {
+	w := NewWorld(t, WorldOpt{})
+	defer w.Close()
+	run.Eval()
+	const svc = "svc"
+	to := DefTO
+	to.HealthCheckConfig.Interval = 30 * time.Second
+	nt := 1 + rng.IntN(2)
+	var names []string
+	for i := 0; i < nt; i++ {
+		names = append(names, fmt.Sprintf("hm%d-t%d:80", idx%5, i))
+		w.AddTarget(names[i], nil)
+	}
+	if c := w.Deploy(svc, names, server.ServiceOptions{TLSRedirect: true}, to, 5*time.Second, time.Second); c.Err != "" {
+		run.Inconclusive("setup failed: %s", c.Err)
+		return
+	}
+	rounds := 20 + rng.IntN(40)
+	clients := 4 + rng.IntN(12)
+	per := 10 + rng.IntN(30)
+	msgs := map[string]bool{}
+	T := 2 * time.Second
+	var cmdsDone atomic.Bool
+	msg := func(i int) string {
+		m := fmt.Sprintf("maintenance %d-%d <b>&", idx, i)
+		w.mu.Lock()
+		msgs[m] = true
+		w.mu.Unlock()
+		return m
+	}
+	w.At(T-500*time.Millisecond, func() { w.Stop(svc, time.Second, msg(0)) }) // stopped before the first request is sent
+	w.At(T, func() {
+		for i := 1; i <= rounds; i++ {
+			w.Pause(svc, time.Second, 100*time.Second)
+			w.Stop(svc, time.Second, msg(i))
+		}
+		w.Pause(svc, time.Second, 100*time.Second)
+		cmdsDone.Store(true)
+	})
+	tResume := T + time.Second
+	w.At(tResume, func() { w.Resume(svc) })
+	for c := 0; c < clients; c++ {
+		c := c
+		w.At(T, func() {
+			for j := 0; j < per && !cmdsDone.Load(); j++ {
+				w.Do(Req{ID: fmt.Sprintf("c%d-%d", c, j), Host: "c08.example", Path: "/x"})
+			}
+		})
+	}
+	w.Wait()
+	fail := func(sig, format string, a ...any) {
+		run.Violate(sig, fmt.Sprintf(format, a...), map[string]any{"idx": idx, "rounds": rounds, "clients": clients, "targets": nt}, func() []string { return w.Trace(120) })
+	}
+	for _, c := range w.Cmds {
+		if c.Panic != "" || c.Err != "" {
+			fail("command-failed:"+c.Name, "command %s %s failed: %s %s", c.Name, c.Args, c.Err, c.Panic)
+			return
+		}
+	}
+	n503, nfwd := 0, 0
+	for _, r := range w.RespLog() {
+		switch {
+		case r.Status == 503:
+			n503++
+			ok := false
+			why := ""
+			for m := range msgs {
+				if why = c08CheckBody(string(r.Body), m, ""); why == "" {
+					ok = true
+					break
+				}
+			}
+			if !ok {
+				fail("stopped-503-without-issued-message:stop-pause-alternation", "stop <message i> and pause alternated %d times at %v with no resume in between; request %s (sent %v) got a 503 at %v that carries none of the %d messages issued: %s", rounds, T, r.ID, r.Sent, r.Done, len(msgs), why)
+				return
+			}
+		case r.Status == 200 && r.Target != "" && r.Done >= tResume:
+			nfwd++
+		default:
+			fail(fmt.Sprintf("unexpected-outcome:stop-pause-alternation:got-%d", r.Status), "stop and pause alternated %d times at %v, final resume at %v; request %s (sent %v) got status=%d target=%q at %v err=%q: while stopped or paused it can only be answered 503 with a stop message or be forwarded by the resume", rounds, T, tResume, r.ID, r.Sent, r.Status, r.Target, r.Done, r.Err)
+			return
+		}
+	}
+	if n503 == 0 {
+		run.Count("hammer_without_503", 1)
+		return
+	}
+	run.Count("hammer_503_judged", n503)
+	run.Count("hammer_forwarded_by_final_resume", nfwd)
+	run.Class(fmt.Sprintf("hammer|nt%d|clients%d|fwd=%v", nt, clients/4*4, nfwd > 0))
 }
 
 // c08Upload: "nothing is forwarded to its targets" while stopped (paused), for a request that was
